@@ -61,6 +61,7 @@ func genC01(seed uint64, tier string) *Case {
 			s.Op = "crash"
 		case x < 10:
 			s.Op = "start"
+			s.K = g.Pick(0, 0, 0, 0, 1)
 		case x < 13:
 			s.Op = "part"
 			for i := 0; i < n; i++ {
@@ -353,6 +354,12 @@ func execC01(r *Run) {
 				delete(x.seenBy, i)
 			}
 			others := runningOthers(i)
+			if s.K == 1 && nd.truth != "never" {
+				// a member that comes back without joining anybody (restarted without a join
+				// address): the others hold it as failed and find it again by reconnecting
+				others = nil
+				r.Fault("restart-without-join")
+			}
 			if len(others) > 0 {
 				j := s.J % n
 				if j == i || !nodes[j].up {
@@ -546,7 +553,21 @@ func execC01(r *Run) {
 					alive++
 				}
 			}
-			if alive <= 1 {
+			sought := false // somebody holds this node as failed: serf's reconnect loop looks for it
+			for j, other := range nodes {
+				if j == i || !other.up {
+					continue
+				}
+				for _, m := range other.s.Members() {
+					if m.Name == nd.name && m.Status == serf.StatusFailed {
+						sought = true
+					}
+				}
+			}
+			if alive <= 1 && sought {
+				r.Probe("isolated-node-left-to-reconnect")
+			}
+			if alive <= 1 && !sought {
 				j := runningOthers(i)[0]
 				target := nodes[j].name + "/" + net.JoinHostPort(nodes[j].ip, "7946")
 				sref := nd.s
